@@ -17,6 +17,9 @@ pub struct C16 {
     /// Since when the reported loss average has been above 0.55 at every tick.
     high_since: HashMap<u64, u64>,
     seeded: HashMap<u64, bool>,
+    /// Honest loss accounting: last NAK total seen per link and when it last went up.
+    nak_seen: HashMap<u64, i32>,
+    nak_rose_at: HashMap<u64, u64>,
 }
 
 impl KMonitor for C16 {
@@ -25,6 +28,8 @@ impl KMonitor for C16 {
         // links that vanished are forgotten by the controller: forget them too
         self.high_since.retain(|id, _| t.cc.contains_key(id));
         self.seeded.retain(|id, _| t.cc.contains_key(id));
+        self.nak_seen.retain(|id, _| t.cc.contains_key(id));
+        self.nak_rose_at.retain(|id, _| t.cc.contains_key(id));
         for inp in &t.inputs {
             let Some(cur) = t.cc.get(&inp.conn_id) else {
                 out.violate("C16.snapshot", "", ctx.idx, format!("no CC snapshot for link {:x}", inp.conn_id));
@@ -32,6 +37,15 @@ impl KMonitor for C16 {
             };
             let prev = t.cc_prev.get(&inp.conn_id);
             out.stats.inc("c16.link_ticks");
+            // honest loss: the counter only counts upwards; a restart (reconnect) is not loss
+            match self.nak_seen.get(&inp.conn_id) {
+                Some(prev_n) if inp.nak_total > *prev_n => {
+                    self.nak_rose_at.insert(inp.conn_id, ctx.now);
+                }
+                Some(prev_n) if inp.nak_total < *prev_n => out.probe("c16.nak_counter_restarted"),
+                _ => {}
+            }
+            self.nak_seen.insert(inp.conn_id, inp.nak_total);
             let tgt = cur.target_bps;
             if !(MIN_T..=MAX_T).contains(&tgt) {
                 out.violate("C16.bounds", "", ctx.idx, format!("target {tgt} outside [100 kbit/s, 200 Mbit/s]"));
@@ -63,7 +77,19 @@ impl KMonitor for C16 {
                     let drain_ok = cur.state == CcState::Drain
                         && p.state != CcState::Drain
                         && ((tgt as f64) - (pt * 0.75).floor().max(MIN_T as f64)).abs() <= 1.0;
-                    if backoff_ok {
+                    let loss_seen = self.nak_rose_at.get(&inp.conn_id).is_some_and(|t| ctx.now.saturating_sub(*t) <= 1000);
+                    if backoff_ok && !loss_seen {
+                        out.violate(
+                            "C16.decrease",
+                            "backoff_without_loss",
+                            ctx.idx,
+                            format!(
+                                "target {} -> {tgt} by a loss back-off although the link's loss counter has not risen in the last second (last rise {:?} ms ago)",
+                                p.target_bps,
+                                self.nak_rose_at.get(&inp.conn_id).map(|t| ctx.now - t)
+                            ),
+                        );
+                    } else if backoff_ok {
                         out.probe("c16.backoff_decrease");
                         if (tgt as f64) > (pt * 0.85).floor() + 1.0 {
                             out.probe("c16.backoff_floored_at_delivered_rate");
